@@ -4,6 +4,9 @@ EXTENDS KeyKeeper
 \* the mode is part of the content a rule id stands for
 MCModeOf(r) == CASE r = "r0" -> "disabled" [] r = "r1" -> "audit" [] r = "r2" -> "enforce" [] OTHER -> "audit"
 
+\* g1 carries a higher incarnation number than g2; g3 carries none
+MCIncOf(g) == CASE g = "g1" -> 2 [] g = "g2" -> 1 [] OTHER -> 0
+
 Doc(v, c, h, w, i, g) == [ver |-> v, chan |-> c, hasRules |-> h, rules |-> [ws |-> w, imds |-> i, ga |-> g]]
 It(r) == [id |-> r, mode |-> MCModeOf(r), c |-> "c1"]
 
